@@ -73,7 +73,8 @@ PNODE = Family(
         'get_used_names': _pm('get_used_names', [], Obj('UsedNames')),
         'get_doc_node': _pm('get_doc_node', [], Opt(_P), ensures=['result is None or result.is_leaf']),
         'get_leaf_for_position': _pm('get_leaf_for_position', [('position', POS), ('include_prefixes', BOOL)],
-                                     Opt(_P), defaults={'include_prefixes': False}),
+                                     Opt(_P), defaults={'include_prefixes': False},
+                                     ensures=['result is None or result.is_leaf']),
     },
     eq_str="(o.type == 'operator' or o.type == 'keyword') and o.value == s",
     note='parso tree nodes and leaves: the tree API is an ASSUMED contract (DESIGN 3); Operator/Keyword leaves '
